@@ -20,8 +20,46 @@ use std::cell::RefCell;
 use std::f64::consts::PI;
 use std::ops::Range;
 
+// ---------------------------------------------------------------- time guard
+// A change to the fitter can make it run (practically) forever, e.g. when no cubic is ever accepted
+// and everything is cut into accuracy-sized lines. Every call into the fitter runs on a worker thread
+// with a time limit; after three time-outs the remaining evaluations are skipped.
+static TIMEOUTS: std::sync::atomic::AtomicU32 = std::sync::atomic::AtomicU32::new(0);
+const TIME_LIMIT_S: u64 = 20;
+
+/// Err(true): timed out (report it); Err(false): skipped because of earlier time-outs
+fn guarded<R: Send + 'static>(f: impl FnOnce() -> R + Send + 'static) -> Result<R, bool> {
+    use std::sync::atomic::Ordering;
+    if TIMEOUTS.load(Ordering::Relaxed) >= 3 {
+        return Err(false);
+    }
+    let (tx, rx) = std::sync::mpsc::channel();
+    let h = std::thread::Builder::new().stack_size(256 << 20).spawn(move || {
+        let r = std::panic::catch_unwind(std::panic::AssertUnwindSafe(f));
+        let _ = tx.send(r);
+    });
+    if h.is_err() {
+        return Err(false);
+    }
+    match rx.recv_timeout(std::time::Duration::from_secs(TIME_LIMIT_S)) {
+        Ok(Ok(r)) => Ok(r),
+        Ok(Err(p)) => std::panic::resume_unwind(p),
+        Err(_) => {
+            TIMEOUTS.fetch_add(1, Ordering::Relaxed);
+            Err(true)
+        }
+    }
+}
+
+fn timeout_violation(what: &str, r: Result<(), bool>) -> Option<(String, String)> {
+    match r {
+        Err(true) => Some((format!("{}:timeout", what), format!("no result within {} s (ordinary inputs take milliseconds)", TIME_LIMIT_S))),
+        _ => None,
+    }
+}
+
 pub fn prop() -> Prop {
-    Prop { id: "C18", corr, laws, extra, law_budget: (14, 260) }
+    Prop { id: "C18", corr, laws, extra, law_budget: (50, 400) }
 }
 
 // =====================================================================================
@@ -166,7 +204,7 @@ struct FitTables {
     depth: u32,
 }
 
-fn walk(src: &Toy, s: f64, e: f64, acc: f64, tb: &mut FitTables, depth: u32) {
+fn walk<S: ParamCurveFit>(src: &S, s: f64, e: f64, acc: f64, tb: &mut FitTables, depth: u32) {
     tb.depth = tb.depth.max(depth);
     if depth > 110 {
         return;
@@ -204,7 +242,10 @@ fn walk(src: &Toy, s: f64, e: f64, acc: f64, tb: &mut FitTables, depth: u32) {
             return;
         }
     }
+    // (CubicOffset::break_cusp runs solve_itp, which ticks the same work counter)
+    let w0 = kurbo::verif::work();
     let bc = src.break_cusp(s..e);
+    tb.cubic_work += kurbo::verif::work() - w0;
     tb.cusp.push([s, e, if bc.is_some() { 1.0 } else { 0.0 }, bc.unwrap_or(0.0)]);
     let t = match bc {
         Some(t) => t,
@@ -289,23 +330,80 @@ fn gen_toy(r: &mut Rng) -> (Toy, f64, &'static str) {
     }
 }
 
+/// the sources the structural correspondence runs on: instrumented toys, and the crate's own two sources
+enum FitSrc {
+    Toy(Toy),
+    Offset(CubicOffset),
+    Chain(SimplifyBezPath),
+}
+
+fn run_fit_case(src: FitSrc, acc: f64) -> Option<(FitTables, BezPath, u64)> {
+    fn go<S: ParamCurveFit>(src: &S, acc: f64) -> Option<(FitTables, BezPath, u64)> {
+        let mut tb = FitTables::default();
+        walk(src, 0.0, 1.0, acc, &mut tb, 0);
+        let leaves: u64 = tb.kinds.iter().sum();
+        if tb.depth > 100 || leaves > 80 {
+            return None;
+        }
+        kurbo::verif::reset();
+        let path = fit_to_bezpath(src, acc);
+        let total = kurbo::verif::work();
+        Some((tb, path, total))
+    }
+    match src {
+        FitSrc::Toy(t) => go(&t, acc),
+        FitSrc::Offset(c) => go(&c, acc),
+        FitSrc::Chain(c) => go(&c, acc),
+    }
+}
+
+fn gen_fit_src(r: &mut Rng) -> (FitSrc, f64, &'static str) {
+    match r.below(8) {
+        0 => {
+            // a cubic offset, sometimes past the radius of curvature (real cusps, real break_cusp)
+            let size = *r.pick(&[1.0, 10.0, 100.0]);
+            let c = gen_smooth_cubic(r, size);
+            let km = kappa_max(&c).max(1e-9 / size);
+            let past = r.chance(1, 3);
+            let d = (if past { r.uniform(1.2, 3.0) } else { r.uniform(0.1, 0.8) }) / km * if r.bool() { 1.0 } else { -1.0 };
+            let d = d.clamp(-5.0 * size, 5.0 * size);
+            (FitSrc::Offset(CubicOffset::new(c, d)), size * *r.pick(&[0.1, 1e-2, 1e-3]), if past { "offset-cusps" } else { "offset" })
+        }
+        1 => {
+            let size = *r.pick(&[1.0, 10.0, 100.0]);
+            let (a, th0, th1, step) = gen_analytic(r, size);
+            let n = (((th1 - th0).abs() / step).ceil() as usize).clamp(2, 12);
+            let mut bp = BezPath::new();
+            hermite_chain(&|t| a.at(t), th0, th1, n, &mut bp, true);
+            (FitSrc::Chain(SimplifyBezPath::new(bp.iter())), size * *r.pick(&[0.1, 1e-2, 1e-3, 1e-4]), "chain")
+        }
+        _ => {
+            let (t, acc, tag) = gen_toy(r);
+            (FitSrc::Toy(t), acc, tag)
+        }
+    }
+}
+
 fn corr_fit(r: &mut Rng, thorough: bool, o: &mut Out) {
-    let n = if thorough { 700 } else { 70 };
+    let n = if thorough { 800 } else { 80 };
     let mut done = 0;
     let mut tries = 0;
     while done < n && tries < 20 * n {
         tries += 1;
-        let (src, acc, tag) = gen_toy(r);
-        let mut tb = FitTables::default();
-        walk(&src, 0.0, 1.0, acc, &mut tb, 0);
+        let (src, acc, tag) = gen_fit_src(r);
+        let res = guarded(move || run_fit_case(src, acc));
+        let (tb, path, total) = match res {
+            Ok(Some(x)) => x,
+            Ok(None) => continue,
+            Err(fresh) => {
+                if fresh {
+                    o.violation("corr-fit:timeout", format!("fit_to_bezpath on a source ({}) did not return within {} s", tag, TIME_LIMIT_S), format!("{{\"source\":\"{}\",\"accuracy\":{}}}", tag, acc));
+                }
+                continue;
+            }
+        };
         let leaves: u64 = tb.kinds.iter().sum();
-        if tb.depth > 100 || leaves > 80 {
-            continue;
-        }
-        kurbo::verif::reset();
-        let path = fit_to_bezpath(&src, acc);
-        let total = kurbo::verif::work();
-        let rec_calls = total - tb.cubic_work;
+        let rec_calls = total.wrapping_sub(tb.cubic_work);
         let mut args = vec![acc];
         args.push(tb.pts.len() as f64);
         tb.pts.iter().for_each(|x| args.extend_from_slice(x));
@@ -541,7 +639,9 @@ fn gen_simplify_path(r: &mut Rng) -> BezPath {
                     }
                 }
                 4 => {
-                    let p = gen_point(r);
+                    // tame coordinates: this run is smooth (quad + collinear line) and goes to the fitter
+                    let gp = |r: &mut Rng| Point::new(r.grid(8, 2.0) * size, r.grid(8, 2.0) * size);
+                    let p = gp(r);
                     if first {
                         bp.move_to(p);
                         start = p;
@@ -550,7 +650,7 @@ fn gen_simplify_path(r: &mut Rng) -> BezPath {
                     if r.chance(1, 5) {
                         bp.quad_to(l, l);
                     }
-                    bp.quad_to(gen_point(r), gen_point(r));
+                    bp.quad_to(gp(r), gp(r));
                     // collinear continuation: smooth join between a quad and a line
                     let (a, b) = match bp.elements().last().unwrap() {
                         PathEl::QuadTo(a, b) => (*a, *b),
@@ -584,6 +684,17 @@ fn gen_simplify_path(r: &mut Rng) -> BezPath {
             }
             _ => {}
         }
+        // drawing elements directly after ClosePath (no MoveTo): the code continues from its stale last point
+        if matches!(bp.elements().last(), Some(PathEl::ClosePath)) && r.chance(1, 4) {
+            bp.line_to(Point::new(r.grid(8, 2.0) * size, r.grid(8, 2.0) * size));
+            if r.bool() {
+                let c = gen_cubic(r);
+                bp.curve_to(c.p1, c.p2, c.p3);
+            }
+            if r.bool() {
+                bp.close_path();
+            }
+        }
     }
     bp
 }
@@ -606,39 +717,75 @@ fn last_point(bp: &BezPath) -> Option<Point> {
 
 fn corr_simplify(r: &mut Rng, thorough: bool, o: &mut Out) {
     let n = if thorough { 500 } else { 50 };
+    let mut fitter_panics = 0u32;
     for _ in 0..n {
         let bp = gen_simplify_path(r);
-        let els: Vec<PathEl> = bp.elements().to_vec();
-        let thresh = *r.pick(&[1e-3, 1e-3, 1e-3, 0.1, 10.0]);
+        let mut els: Vec<PathEl> = bp.elements().to_vec();
+        let headless = r.chance(1, 25);
+        if headless {
+            els.remove(0); // no MoveTo: `last_pt.unwrap()` panics at the first drawing element
+        }
         let level = r.bool();
+        // with the optimising fitter only smooth runs are queued (default threshold): on sources with
+        // unreported corners fit_to_bezpath_opt can run for minutes or panic, which is not what is compared here
+        let thresh = if level { 1e-3 } else { *r.pick(&[1e-3, 1e-3, 1e-3, 0.1, 10.0]) };
         let size = els.iter().fold(1.0f64, |m, e| match e {
             PathEl::MoveTo(p) | PathEl::LineTo(p) | PathEl::QuadTo(_, p) | PathEl::CurveTo(_, _, p) => m.max(p.x.abs()).max(p.y.abs()),
             _ => m,
         });
         let acc = size * *r.pick(&[0.1, 1e-2, 1e-3]);
-        let opts = SimplifyOptions::default().angle_thresh(thresh).opt_level(if level { SimplifyOptLevel::Optimize } else { SimplifyOptLevel::Subdivide });
-        let real = match std::panic::catch_unwind(|| simplify_bezpath(els.iter().copied(), acc, &opts)) {
-            Ok(p) => p,
-            Err(_) => continue,
+        let els2 = els.clone();
+        let res = guarded(move || {
+            let opts = SimplifyOptions::default().angle_thresh(thresh).opt_level(if level { SimplifyOptLevel::Optimize } else { SimplifyOptLevel::Subdivide });
+            let real = match std::panic::catch_unwind(|| simplify_bezpath(els2.iter().copied(), acc, &opts)) {
+                Ok(p) => p,
+                Err(_) => return None,
+            };
+            let queues = simplify_queues(&els2, thresh);
+            let mut args = vec![thresh, queues.len() as f64];
+            for q in &queues {
+                let s = SimplifyBezPath::new(q.iter().copied());
+                let out = if level { fit_to_bezpath_opt(&s, acc) } else { fit_to_bezpath(&s, acc) };
+                let eq = enc_els(q);
+                let eo = enc_els(out.elements());
+                args.push(eq.len() as f64);
+                args.extend(eq);
+                args.push(eo.len() as f64);
+                args.extend(eo);
+            }
+            Some((real, args, queues.len()))
+        });
+        let (real, mut args, nq) = match res {
+            Ok(Some(x)) => x,
+            Ok(None) => {
+                if headless {
+                    let mut args = vec![thresh, 0.0];
+                    args.extend(enc_els(&els));
+                    o.case(7, "simplify-structure", args, vec![-1.0], true, "panic:no-moveto");
+                } else {
+                    // a panic inside the fitter itself (fit_to_bezpath_opt's `unwrap()` at fit.rs:656 on
+                    // non-smooth queues with a coarse accuracy): outside the outer structure modelled here
+                    fitter_panics += 1;
+                }
+                continue;
+            }
+            Err(fresh) => {
+                if fresh {
+                    o.violation("corr-simplify:timeout", format!("simplify_bezpath did not return within {} s", TIME_LIMIT_S), format!("{{\"els\":{}}}", crate::util::fmt_fs(&enc_els(&els))));
+                }
+                continue;
+            }
         };
-        let queues = simplify_queues(&els, thresh);
-        let mut args = vec![thresh, queues.len() as f64];
-        for q in &queues {
-            let s = SimplifyBezPath::new(q.iter().copied());
-            let out = if level { fit_to_bezpath_opt(&s, acc) } else { fit_to_bezpath(&s, acc) };
-            let eq = enc_els(q);
-            let eo = enc_els(out.elements());
-            args.push(eq.len() as f64);
-            args.extend(eq);
-            args.push(eo.len() as f64);
-            args.extend(eo);
-        }
         args.extend(enc_els(&els));
         let mut obs = vec![real.elements().len() as f64];
         obs.extend(enc_els(real.elements()));
         let nsub = els.iter().filter(|e| matches!(e, PathEl::MoveTo(_))).count();
-        let tag = format!("{}sub{}{}", nsub.min(3), if queues.is_empty() { ":passthrough" } else { ":fitted" }, if level { ":opt" } else { ":subdiv" });
+        let after_close = els.windows(2).any(|w| matches!(w[0], PathEl::ClosePath) && !matches!(w[1], PathEl::MoveTo(_)));
+        let tag = format!("{}sub{}{}{}", nsub.min(3), if nq == 0 { ":passthrough" } else { ":fitted" }, if level { ":opt" } else { ":subdiv" }, if after_close { ":draw-after-close" } else { "" });
         o.case(7, "simplify-structure", args, obs, els.len() > 3, &tag);
+    }
+    if fitter_panics > 0 {
+        o.notes.push(format!("simplify-structure: {} generated (non-smooth, coarse accuracy) inputs skipped because the fitter itself panicked (fit_to_bezpath_opt, fit.rs:656 unwrap on None)", fitter_panics));
     }
 }
 
@@ -679,7 +826,7 @@ fn corr_kernels(r: &mut Rng, thorough: bool, o: &mut Out) {
         o.case(3, "offset-eval_deriv", a.clone(), vec![dv.x, dv.y], finite, if finite { "finite" } else { "zero-derivative" });
         a.push(sign);
         // the near-cusp branch of sample_pt_tangent: |cusp_sign| < 1e-8 needs d = -radius of curvature
-        let tag = if (dv.x.abs() + dv.y.abs()) < 1e-7 * (s.tangent.x.abs() + s.tangent.y.abs()) { "near-cusp" } else { "regular" };
+        let tag = if (dv.x.abs() + dv.y.abs()) < 1e-8 * (s.tangent.x.abs() + s.tangent.y.abs()) { "near-cusp" } else { "regular" };
         if generic && finite {
             o.case(2, "offset-sample_pt_tangent", a.clone(), vec![s.p.x, s.p.y, s.tangent.x, s.tangent.y], true, tag);
         }
@@ -704,7 +851,7 @@ fn corr_kernels(r: &mut Rng, thorough: bool, o: &mut Out) {
                 let dv = co.sample_pt_deriv(t).1;
                 let mut a = cubic8(&c);
                 a.extend([dd, t, sign]);
-                let tag = if (dv.x.abs() + dv.y.abs()) < 1e-7 * (s.tangent.x.abs() + s.tangent.y.abs()) { "near-cusp" } else { "regular" };
+                let tag = if (dv.x.abs() + dv.y.abs()) < 1e-8 * (s.tangent.x.abs() + s.tangent.y.abs()) { "near-cusp" } else { "regular" };
                 o.case(4, "offset-tangent", a, vec![s.tangent.x, s.tangent.y], true, tag);
             }
         }
@@ -716,27 +863,7 @@ fn corr_kernels(r: &mut Rng, thorough: bool, o: &mut Out) {
         o.case(5, "moment_integrals", cubic8(&c), vec![a, x, y], !degenerate, if degenerate { "degenerate" } else { "cubic" });
         let s = gen_seg(r);
         let (d0, d1) = s.verif_tangents();
-        let tag = match s {
-            PathSeg::Line(_) => "line".to_string(),
-            PathSeg::Quad(q) => format!("quad{}{}", if (q.p1 - q.p0).hypot2() > 1e-12 { "" } else { ":p0=p1" }, if (q.p2 - q.p1).hypot2() > 1e-12 { "" } else { ":p1=p2" }),
-            PathSeg::Cubic(c) => format!(
-                "cubic{}{}",
-                if (c.p1 - c.p0).hypot2() > 1e-12 {
-                    ""
-                } else if (c.p2 - c.p0).hypot2() > 1e-12 {
-                    ":p0=p1"
-                } else {
-                    ":p0=p1=p2"
-                },
-                if (c.p3 - c.p2).hypot2() > 1e-12 {
-                    ""
-                } else if (c.p3 - c.p1).hypot2() > 1e-12 {
-                    ":p2=p3"
-                } else {
-                    ":p1=p2=p3"
-                }
-            ),
-        };
+        let tag = tan_tag(&s);
         o.case(8, "tangents", enc_seg(&s), vec![d0.x, d0.y, d1.x, d1.y], tag.contains(':'), &tag);
         let l = gen_line(r);
         let p = match r.below(4) {
@@ -772,7 +899,31 @@ fn corr_kernels(r: &mut Rng, thorough: bool, o: &mut Out) {
         }
         let s = if r.bool() { PathSeg::Cubic(CubicBez::new(ps[0], ps[1], ps[2], ps[3])) } else { PathSeg::Quad(QuadBez::new(ps[0], ps[1], ps[3])) };
         let (d0, d1) = s.verif_tangents();
-        o.case(8, "tangents", enc_seg(&s), vec![d0.x, d0.y, d1.x, d1.y], true, "degenerate-ctrl");
+        o.case(8, "tangents", enc_seg(&s), vec![d0.x, d0.y, d1.x, d1.y], true, &tan_tag(&s));
+    }
+}
+
+fn tan_tag(s: &PathSeg) -> String {
+    match s {
+        PathSeg::Line(_) => "line".to_string(),
+        PathSeg::Quad(q) => format!("quad{}{}", if (q.p1 - q.p0).hypot2() > 1e-12 { "" } else { ":p0=p1" }, if (q.p2 - q.p1).hypot2() > 1e-12 { "" } else { ":p1=p2" }),
+        PathSeg::Cubic(c) => format!(
+            "cubic{}{}",
+            if (c.p1 - c.p0).hypot2() > 1e-12 {
+                ""
+            } else if (c.p2 - c.p0).hypot2() > 1e-12 {
+                ":p0=p1"
+            } else {
+                ":p0=p1=p2"
+            },
+            if (c.p3 - c.p2).hypot2() > 1e-12 {
+                ""
+            } else if (c.p3 - c.p1).hypot2() > 1e-12 {
+                ":p2=p3"
+            } else {
+                ":p1=p2=p3"
+            }
+        ),
     }
 }
 
@@ -833,9 +984,20 @@ fn corr_try_fit_line(r: &mut Rng, thorough: bool, o: &mut Out) {
             1 => Base::Sine(size, size * r.uniform(0.01, 0.3), r.uniform(0.3, 2.0)),
             _ => Base::Arc(Point::new(0.0, 0.0), size, r.uniform(0.0, 6.0), r.uniform(0.2, 6.5)),
         };
+        let closedish = matches!(base, Base::Arc(..)) && r.chance(3, 4);
         let src = Toy::new(base);
-        let s = r.uniform(0.0, 0.9);
-        let e = (s + r.uniform(0.0, 1.0).powi(2)).min(1.0);
+        let (s, e) = if closedish {
+            // a range over which the arc nearly closes on itself: short chord, large bulge
+            if let Base::Arc(_, _, _, sw) = src.base {
+                let s = r.uniform(0.0, 0.05);
+                (s, (s + 2.0 * PI / sw * r.uniform(0.9, 1.0)).min(1.0))
+            } else {
+                unreachable!()
+            }
+        } else {
+            let s = r.uniform(0.0, 0.9);
+            (s, (s + r.uniform(0.0, 1.0).powi(2)).min(1.0))
+        };
         let sp = src.sample_pt_tangent(s, 1.0).p;
         let ep = src.sample_pt_tangent(e, -1.0).p;
         let chord = sp.distance(ep);
@@ -1189,9 +1351,20 @@ fn law_fit_chain(a: &[f64]) -> Option<(String, String)> {
     if src.is_empty() || !chain_is_smooth(&src) || !(1e-4..=1.0).contains(&acc) {
         return None; // outside the property's domain
     }
-    let s = SimplifyBezPath::new(els.iter().copied());
-    let out = if mode { fit_to_bezpath_opt(&s, acc) } else { fit_to_bezpath(&s, acc) };
-    check_fitted(&src, &out, acc, if mode { "fit-opt" } else { "fit" })
+    let what = if mode { "fit-opt" } else { "fit" };
+    let els2 = els.clone();
+    let out = match guarded(move || {
+        let s = SimplifyBezPath::new(els2.iter().copied());
+        if mode {
+            fit_to_bezpath_opt(&s, acc)
+        } else {
+            fit_to_bezpath(&s, acc)
+        }
+    }) {
+        Ok(o) => o,
+        Err(f) => return timeout_violation(what, Err(f)),
+    };
+    check_fitted(&src, &out, acc, what)
 }
 
 // ---------------------------------------------------------------- law: analytic source through the public trait
@@ -1249,8 +1422,17 @@ fn law_fit_analytic(v: &[f64]) -> Option<(String, String)> {
     let (mode, acc) = (v[0] != 0.0, v[1]);
     let a = dec_analytic(&v[2..8]);
     let (th0, th1) = (v[8], v[9]);
-    let src = AnaSrc { a, th0, th1 };
-    let out = if mode { fit_to_bezpath_opt(&src, acc) } else { fit_to_bezpath(&src, acc) };
+    let out = match guarded(move || {
+        let src = AnaSrc { a, th0, th1 };
+        if mode {
+            fit_to_bezpath_opt(&src, acc)
+        } else {
+            fit_to_bezpath(&src, acc)
+        }
+    }) {
+        Ok(o) => o,
+        Err(f) => return timeout_violation(if mode { "analytic-opt" } else { "analytic" }, Err(f)),
+    };
     let n = (((th1 - th0).abs() / 0.5).ceil() as usize).clamp(1, 60);
     let h = (th1 - th0) / n as f64;
     let f = |i: usize, t: f64| a.at(th0 + (i as f64 + t) * h).0;
@@ -1316,8 +1498,17 @@ fn law_offset(v: &[f64]) -> Option<(String, String)> {
             return None;
         }
     }
-    let co = CubicOffset::new(c, d);
-    let out = if mode { fit_to_bezpath_opt(&co, acc) } else { fit_to_bezpath(&co, acc) };
+    let out = match guarded(move || {
+        let co = CubicOffset::new(c, d);
+        if mode {
+            fit_to_bezpath_opt(&co, acc)
+        } else {
+            fit_to_bezpath(&co, acc)
+        }
+    }) {
+        Ok(o) => o,
+        Err(f) => return timeout_violation(what, Err(f)),
+    };
     let els = out.elements();
     if !finite_els(els) {
         return fail(&format!("{}:non-finite", what), format!("{:?}", out));
@@ -1481,8 +1672,14 @@ fn law_simplify(v: &[f64]) -> Option<(String, String)> {
         return None;
     }
     let what = if level { "simplify-opt" } else { "simplify" };
-    let opts = SimplifyOptions::default().opt_level(if level { SimplifyOptLevel::Optimize } else { SimplifyOptLevel::Subdivide });
-    let out = simplify_bezpath(els.iter().copied(), acc, &opts);
+    let els2 = els.clone();
+    let out = match guarded(move || {
+        let opts = SimplifyOptions::default().opt_level(if level { SimplifyOptLevel::Optimize } else { SimplifyOptLevel::Subdivide });
+        simplify_bezpath(els2.iter().copied(), acc, &opts)
+    }) {
+        Ok(o) => o,
+        Err(f) => return timeout_violation(what, Err(f)),
+    };
     let oels = out.elements();
     if !finite_els(oels) {
         return fail(&format!("{}:non-finite", what), format!("{:?}", out));
